@@ -11,6 +11,7 @@ import (
 	"github.com/google/uuid"
 	"google.golang.org/grpc/status"
 	"google.golang.org/protobuf/types/known/durationpb"
+	"google.golang.org/protobuf/types/known/fieldmaskpb"
 	"google.golang.org/protobuf/types/known/timestamppb"
 
 	"go.6river.tech/mmmbbb/actions"
@@ -31,6 +32,8 @@ type Runner struct {
 	// Sep is the pause inserted after every operation so that consecutive
 	// operations have distinct, ordered times.
 	Sep time.Duration
+	// Ctx, if set, is the request context used by Exec (fault injection)
+	Ctx context.Context
 }
 
 func errCode(err error) string {
@@ -134,6 +137,9 @@ func parseIDs(ids []string) []uuid.UUID {
 func (r *Runner) Exec(c model.Call) model.Obs {
 	w := r.W
 	ctx := context.Background()
+	if r.Ctx != nil {
+		ctx = r.Ctx
+	}
 	var o model.Obs
 	o.T0 = w.Now()
 	var err error
@@ -193,6 +199,25 @@ func (r *Runner) Exec(c model.Call) model.Obs {
 			}
 			return nack.Execute(ctx, tx)
 		})
+	case "acknack":
+		// MessageStreamer.doAcksNacks: first half of AckIDs acked, second half nacked, one tx
+		h := len(c.AckIDs) / 2
+		ack := actions.NewAckDeliveries(parseIDs(c.AckIDs[:h])...)
+		nack := actions.NewNackDeliveries(parseIDs(c.AckIDs[h:])...)
+		err = w.Client.DoTx(ctx, nil, func(tx *ent.Tx) error {
+			if err := ack.Execute(ctx, tx); err != nil {
+				return err
+			}
+			return nack.Execute(ctx, tx)
+		})
+	case "updateSub":
+		_, err = w.Sub.UpdateSubscription(ctx, &pubsubpb.UpdateSubscriptionRequest{
+			Subscription: &pubsubpb.Subscription{Name: model.SubPath(c.Op.Sub), Labels: map[string]string{"k": "v"}, Filter: "attributes:q", EnableMessageOrdering: true},
+			UpdateMask:   &fieldmaskpb.FieldMask{Paths: []string{"labels", "filter", "enable_message_ordering"}}})
+	case "modifyPush":
+		_, err = w.Sub.ModifyPushConfig(ctx, &pubsubpb.ModifyPushConfigRequest{Subscription: model.SubPath(c.Op.Sub), PushConfig: &pubsubpb.PushConfig{PushEndpoint: "http://127.0.0.1:1/p"}})
+	case "updateTopic":
+		_, err = w.Pub.UpdateTopic(ctx, &pubsubpb.UpdateTopicRequest{Topic: &pubsubpb.Topic{Name: model.TopicPath(c.Op.Topic), Labels: map[string]string{"k": "v"}}, UpdateMask: &fieldmaskpb.FieldMask{Paths: []string{"labels"}}})
 	case "sweepDL":
 		a := actions.NewDeadLetterDeliveries(actions.DeadLetterDeliveriesParams{MaxDeliveries: c.Op.Max})
 		err = w.Client.DoCtxTx(ctx, nil, a.Execute)
